@@ -16,18 +16,14 @@ import (
 // VerifLemma_C20A_ExitMapping: app.GetExitCode(wrapError(e)) over a family of error chains.
 //
 //	0 <=> e == nil;
-//	100 whenever an *ImportNotExistError is in the chain, or the chain's governing app error is the
-//	annotation sentinel (exit code 100);
-//	otherwise the governing app.NewError code, or 1 for errors without a code - never 0, and never 100 unless
-//	the code was explicitly 100.
-//
-// Reference bookkeeping while the chain is built: firstApp = exit code of the first appError in errors.As order
-// (0 = none), hasImport, and for a system error the snapshot of what lies beneath it (wrapError reports only
-// sysError.Unwrap()).
+//	never 100 unless the chain holds the annotation sentinel, an explicit status 100 or an *ImportNotExistError;
+//	100 for a missing import; for chains built from app.NewError/WrapError statuses: one of the requested statuses
+//	(exactly it when there is one); for code-less errors just "non-zero and not 100" (the value 1 is not pinned);
+//	for registry (connect) failures and system errors only the first two lines are claimed.
 func VerifLemma_C20A_ExitMapping() {
 	var e error
-	firstApp, hasImport, hasSys, hasConnect := 0, false, false, false
-	connectEarly := false // Unauthenticated / Unavailable: wrapError answers with a fixed message (exit 1)
+	var appCodes []int // every explicit exit code in the chain
+	hasImport, hasSys, hasConnect := false, false, false
 	switch verifNondetChoice(7) {
 	case 0:
 		e = nil
@@ -35,12 +31,12 @@ func VerifLemma_C20A_ExitMapping() {
 		e = errors.New(verifNondetString(verifParam("MSG")))
 	case 2:
 		e = bufctl.ErrFileAnnotation
-		firstApp = bufctl.ExitCodeFileAnnotation
+		appCodes = append(appCodes, bufctl.ExitCodeFileAnnotation)
 	case 3:
 		code := verifNondetInt(-300, 300)
 		verifAssume(code != 0)
 		e = app.NewError(code, verifNondetString(verifParam("MSG")))
-		firstApp = code
+		appCodes = append(appCodes, code)
 	case 4:
 		e = &bufmodule.ImportNotExistError{}
 		hasImport = true
@@ -52,7 +48,6 @@ func VerifLemma_C20A_ExitMapping() {
 		k := verifNondetChoice(len(codes))
 		e = connect.NewError(codes[k], errors.New(verifNondetString(verifParam("MSG"))))
 		hasConnect = true
-		connectEarly = k == 2 || k == 3
 	}
 	if e == nil {
 		verifCover("nil")
@@ -60,7 +55,6 @@ func VerifLemma_C20A_ExitMapping() {
 		verifAssert(app.GetExitCode(wrapError(nil)) == 0, "no error exits 0")
 		return
 	}
-	sysApp, sysImport := 0, false
 	depth := verifNondetChoice(verifParam("WRAPS") + 1)
 	for i := 0; i < depth; i++ {
 		switch verifNondetChoice(6) {
@@ -74,53 +68,34 @@ func VerifLemma_C20A_ExitMapping() {
 			code := verifNondetInt(-300, 300)
 			verifAssume(code != 0)
 			e = app.WrapError(code, e)
-			firstApp = code
+			appCodes = append(appCodes, code)
 		case 4:
-			if !hasSys {
-				sysApp, sysImport = firstApp, hasImport
-				hasSys = true
-			}
+			hasSys = true
 			e = syserror.Wrap(e)
 		case 5:
 			// a second, independent problem joined in front: the annotation sentinel
 			e = errors.Join(bufctl.ErrFileAnnotation, e)
-			firstApp = bufctl.ExitCodeFileAnnotation
+			appCodes = append(appCodes, bufctl.ExitCodeFileAnnotation)
 		}
 	}
 	got := app.GetExitCode(wrapError(e))
 	verifCover("mapped")
 	verifAssert(wrapError(e) != nil, "an error stays an error")
 	verifAssert(got != 0, "an error never exits 0")
-	if hasConnect {
-		verifCover("connect")
-		// what governs the status: beneath a system error only the wrapped part is reported
-		effApp, effImport := firstApp, hasImport
-		if hasSys {
-			effApp, effImport = sysApp, sysImport
+	any100 := false
+	for _, c := range appCodes {
+		if c == bufctl.ExitCodeFileAnnotation {
+			any100 = true
 		}
-		if effApp != bufctl.ExitCodeFileAnnotation && !effImport {
-			verifAssert(got != bufctl.ExitCodeFileAnnotation, "a registry failure is not reported as a source problem")
-		}
-		if connectEarly {
-			verifAssert(got == 1, "authentication / availability failures exit 1")
-		}
-		return
 	}
-	if hasSys && depth == 0 {
-		verifCover("system error")
-		verifAssert(got == 1, "a bare system error exits 1")
-		return
+	if !any100 && !hasImport {
+		verifCover("operational error")
+		verifAssert(got != bufctl.ExitCodeFileAnnotation, "an operational error (no annotation sentinel, no missing import, no explicit 100) never exits 100")
 	}
-	if hasSys {
-		// only what lies beneath the system error is reported
-		verifCover("wrapped system error")
-		if sysImport {
-			verifAssert(got == bufctl.ExitCodeFileAnnotation, "import-not-exist beneath a system error exits 100")
-		} else if sysApp != 0 {
-			verifAssert(got == sysApp, "app code beneath a system error is kept")
-		} else {
-			verifAssert(got == 1, "system error without a code exits 1")
-		}
+	if hasConnect || hasSys {
+		// registry failures get fixed messages, and of a system error only the wrapped part is reported: which of several
+		// statuses in such a chain governs is not part of the claim beyond the two assertions above
+		verifCover("connect or system error")
 		return
 	}
 	if hasImport {
@@ -128,11 +103,20 @@ func VerifLemma_C20A_ExitMapping() {
 		verifAssert(got == bufctl.ExitCodeFileAnnotation, "a missing import exits 100")
 		return
 	}
-	if firstApp != 0 {
+	if len(appCodes) > 0 {
 		verifCover("app error")
-		verifAssert(got == firstApp, "the governing app error's code is the exit status")
+		isOne := false
+		for _, c := range appCodes {
+			if got == c {
+				isOne = true
+			}
+		}
+		verifAssert(isOne, "the exit status is one of the statuses the commands asked for (app.NewError / app.WrapError)")
+		if len(appCodes) == 1 {
+			verifAssert(got == appCodes[0], "a single requested status is the exit status (100 for the annotation sentinel)")
+		}
 		return
 	}
 	verifCover("plain")
-	verifAssert(got == 1, "an error without a code exits 1 (not 100)")
+	// "a different non-zero status for operational errors": the value (1 today) is not pinned
 }
